@@ -30,7 +30,7 @@ ASSUMPTIONS = ["reference inlining rule: DESIGN Appendix A rule 11 (sorted(sub.m
                "files are ASCII; sub-programs contain no measured registers (the statement renames modes only)"]
 
 
-def make_sub(rng, g, name, modeset, template, child=None, regref_args=False):
+def make_sub(rng, g, name, modeset, template, child=None, regref_args=False, symbolic_child_args=False):
     """child: (call name, relpath, nmodes, params) of a nested sub-program to include and call."""
     G = gen.Gen(rng, g, params=0.3 if template else 0.0, regrefs=0.0, loops=0.0, layout=0.1, hostile_names=0.3,
                 funcs=False, complex=rng.random() < 0.3, kwlists=0.3)
@@ -80,7 +80,19 @@ def make_sub(rng, g, name, modeset, template, child=None, regref_args=False):
             call_modes = rng.sample(ms, cn)
             kw = ""
             if cparams:
-                kw = "(" + ", ".join("%s=%s" % (p, rng.choice(["0.5", "2", "1.25", "3/4", "-0.7"])) for p in cparams) + ")"
+                vals = {p: rng.choice(["0.5", "2", "1.25", "3/4", "-0.7"]) for p in cparams}
+                if template and symbolic_child_args and rng.random() < 0.5:
+                    # the including template passes its own parameters on, possibly one that is named like another
+                    # parameter of the included template (which then receives a number)
+                    if len(cparams) >= 2 and rng.random() < 0.6:
+                        a_, b_ = rng.sample(cparams, 2)
+                        if b_ not in G.params:
+                            stmts.append("Own({%s}) | %d" % (b_, ms[0]))
+                            G.params.append(b_)
+                        vals[a_] = rng.choice(["{%s}", "{%s}", "2*{%s}", "{%s} + 0.5"]) % b_
+                    elif G.params:
+                        vals[rng.choice(cparams)] = "{%s}" % rng.choice(G.params)
+                kw = "(" + ", ".join("%s=%s" % (p, vals[p]) for p in cparams) + ")"
             stmts.insert(rng.randint(0, len(stmts)), "%s%s | [%s]" % (cname, kw, ", ".join(str(m) for m in call_modes)))
     lines.extend(stmts)
     return "\n".join(lines) + "\n"
@@ -130,7 +142,7 @@ def build(rng, g, symbolic_args=False, regref_args=False):
                     x = rng.choice([0, 1, 2, 3, 5, 8, 12, 17, 40, 64, 100, 120, 7, 9])
                     if x not in pool:
                         pool.append(x)
-            text = make_sub(rng, g, name, pool, template, ch, regref_args=regref_args and rng.random() < 0.7)
+            text = make_sub(rng, g, name, pool, template, ch, regref_args=regref_args and rng.random() < 0.7, symbolic_child_args=symbolic_args)
             files[path] = text
             # reference view of this file alone (needs the files below it)
             try:
@@ -163,6 +175,19 @@ def build(rng, g, symbolic_args=False, regref_args=False):
     # main script
     G = gen.Gen(rng, g, params=0.0, regrefs=0.0, loops=0.2, layout=0.1, funcs=False)
     lines = ["name " + fresh("Main"), "version 1.0"]
+    if rng.random() < 0.25:
+        # metadata with options; now and then an option holds a template parameter of the main script
+        # (the included files are read while the main script's metadata is still being processed)
+        mp = fresh("mp")
+        opts = [rng.choice(["shots=100", "cutoff_dim=5", 'mode="fast"', "eta=0.9"])]
+        if rng.random() < 0.6:
+            opts.insert(rng.randint(0, 1), rng.choice(["shots={%s}", "k={%s}", "lam=2*{%s}"]) % mp)
+            tags.add("main-metadata-parameter")
+        lines.append("target %s (%s)" % (rng.choice(["gaussian", "fock", "X8_01"]), ", ".join(opts)))
+        if rng.random() < 0.4:
+            lines.append("type %s (%s)" % (rng.choice(["tdm", "gbs"]), rng.choice(["copies=2", "temporal_modes=3", "n={%s}" % mp])))
+            if mp in lines[-1]:
+                tags.add("main-metadata-parameter")
     inc = []
     for (name, path, nmodes, params, depth) in subs:
         rel = os.path.relpath(path, main_dir or ".")
@@ -357,7 +382,7 @@ def ref_of(files, main_path, root):
     if not ok:
         return ("nosentence",)
     try:
-        return ("ok", refsem.run(text, g, fs=fs, filename=main_abs, tokens=toks))
+        return ("ok", refsem.run(text, g, fs=fs, filename=main_abs, tokens=toks, meta_params=True))
     except OOD as e:
         return ("ood", e.reason)
     except refsem.IllFormed as e:
@@ -529,7 +554,8 @@ def run(ctx):
             if rng.random() < 0.06:
                 files, main_path, info = build_symlink_case(rng, g)
             else:
-                files, main_path, info = build(rng, g)
+                # a third of the trees pass template parameters on to included templates (main script and nested)
+                files, main_path, info = build(rng, g, symbolic_args=rng.random() < 0.33)
         except RuntimeError as e:
             ctx.out_of_domain("generator: " + str(e).split(":")[0])
             continue
